@@ -87,51 +87,51 @@ theorem sim_attach {s s' : BState} (p : Option Nat) (c : VarId) (h : Sim s s') :
 
 theorem step_sim {H H' : Heap} {L : Limits} (hs : SameShape H H') {s s' : BState} (h : Sim s s') :
     Sim (step H L s) (step H' L s') := by
+  obtain ⟨hq, hc, ht, hr, hst, hfl, hp, hrec⟩ := h
+  obtain ⟨q, c, t, r, st, fl, po, re⟩ := s
+  obtain ⟨q', c', t', r', st', fl', po', re'⟩ := s'
+  simp only at hq hc ht hr hst hfl hp hrec
+  subst hq hc hr hst hfl hp hrec
   unfold step
-  rw [← h.final]
-  by_cases hf : s.final = true
-  · simpa [hf] using h
-  · simp only [hf, Bool.false_eq_true, if_false]
-    rw [← h.queue]
-    cases pop s.queue with
-    | none => exact h
+  simp only [BState.final]
+  split
+  · exact ⟨rfl, rfl, ht, rfl, rfl, rfl, rfl, rfl⟩
+  · cases pop q with
+    | none => exact ⟨rfl, rfl, ht, rfl, rfl, rfl, rfl, rfl⟩
     | some nr =>
       obtain ⟨n, rest⟩ := nr
       simp only
-      rw [← h.cache]
-      cases budgetOk L s.cache with
+      cases budgetOk L c with
       | false =>
         simp only [Bool.not_false, if_true]
-        exact ⟨h.queue, h.cache, h.table, h.rootIds, rfl, h.failed, h.popped, h.recorded⟩
+        exact ⟨rfl, rfl, ht, rfl, rfl, rfl, rfl, rfl⟩
       | true =>
         simp only [Bool.not_true, Bool.false_eq_true, if_false]
-        cases lookupId s.cache n.obj with
+        cases lookupId c n.obj with
         | some id =>
           simp only
           apply sim_attach
-          exact ⟨rfl, h.cache, h.table, h.rootIds, h.stopped, h.failed, by simp [h.popped], h.recorded⟩
+          exact ⟨rfl, rfl, ht, rfl, rfl, rfl, rfl, rfl⟩
         | none =>
           simp only
           have hsh := hs n.obj
-          rcases renderText_shape hsh with ⟨m, r1, r2⟩ | ⟨t, t', r1, r2⟩
+          rcases renderText_shape hsh with ⟨m, r1, r2⟩ | ⟨tx, tx', r1, r2⟩
           · rw [r1, r2]
-            exact ⟨h.queue, by simp, h.table, h.rootIds, h.stopped, rfl, h.popped, h.recorded⟩
+            exact ⟨rfl, rfl, ht, rfl, rfl, rfl, rfl, rfl⟩
           · rw [r1, r2]
             simp only
-            rw [childNodes_shape L (newId s.cache) hsh n.depth]
+            rw [childNodes_shape L (newId c) hsh n.depth]
             have hbase : Sim
-                { s with cache := s.cache ++ [(n.obj, newId s.cache)],
-                         table := s.table ++ [mkEntry L (newId s.cache) (H.obj n.obj) t n],
-                         popped := s.popped ++ [n], recorded := s.recorded ++ [(n, newId s.cache)] }
-                { s' with cache := s.cache ++ [(n.obj, newId s.cache)],
-                          table := s'.table ++ [mkEntry L (newId s.cache) (H'.obj n.obj) t' n],
-                          popped := s'.popped ++ [n], recorded := s'.recorded ++ [(n, newId s.cache)] } := by
-              refine ⟨h.queue, rfl, ?_, h.rootIds, h.stopped, h.failed, by simp [h.popped], by simp [h.recorded]⟩
-              simp only [eraseT, List.map_append, List.map_cons, List.map_nil] at *
-              rw [h.table]
+                ⟨q, c ++ [(n.obj, newId c)], t ++ [mkEntry L (newId c) (H.obj n.obj) tx n], r, st, fl,
+                  po ++ [n], re ++ [(n, newId c)]⟩
+                ⟨q, c ++ [(n.obj, newId c)], t' ++ [mkEntry L (newId c) (H'.obj n.obj) tx' n], r, st, fl,
+                  po ++ [n], re ++ [(n, newId c)]⟩ := by
+              refine ⟨rfl, rfl, ?_, rfl, rfl, rfl, rfl, rfl⟩
+              simp only [eraseT, List.map_append, List.map_cons, List.map_nil] at ht ⊢
+              rw [ht]
               simp [eraseE, mkEntry, (shape_fields hsh).1]
-            have hatt := sim_attach n.parent (mkRef n (newId s.cache)) hbase
-            cases childNodes L (newId s.cache) (H'.obj n.obj) n.depth with
+            have hatt := sim_attach n.parent (mkRef n (newId c)) hbase
+            cases childNodes L (newId c) (H'.obj n.obj) n.depth with
             | error m =>
               exact ⟨rfl, hatt.cache, hatt.table, hatt.rootIds, hatt.stopped, rfl, hatt.popped, hatt.recorded⟩
             | ok cs =>
